@@ -66,7 +66,7 @@ static std::string callArgs(const std::string &params)
         if (p.find("externalVariable") != std::string::npos) {
             a = "ext";
         } else if (p.find("voi") != std::string::npos) {
-            a = "0.0";
+            a = "voi";
         } else if (p.find("states") != std::string::npos) {
             a = "states";
         } else if (p.find("rates") != std::string::npos) {
@@ -223,7 +223,7 @@ GenRun runGeneratedC(const std::string &header, const std::string &impl, const E
     m << "static void info(const char *kind, size_t i, const VariableInfo *v)\n{\n"
          "    int fits = memchr(v->name, 0, sizeof v->name) && memchr(v->units, 0, sizeof v->units) && memchr(v->component, 0, sizeof v->component);\n"
          "    printf(\"INFO %s %zu %.*s\\t%.*s\\t%.*s\\t%d\\t%d\\n\", kind, i, (int) sizeof v->name, v->name, (int) sizeof v->units, v->units, (int) sizeof v->component, v->component, (int) v->type, fits);\n}\n";
-    m << "int main(void)\n{\n";
+    m << "int main(void)\n{\n    double voi = 0.0;\n    (void) voi;\n";
     if (ode) {
         m << "    printf(\"COUNT state %zu\\n\", STATE_COUNT);\n    info(\"voi\", 0, &VOI_INFO);\n    for (size_t i = 0; i < STATE_COUNT; ++i) info(\"state\", i, &STATE_INFO[i]);\n";
         m << "    double *states = createStatesArray();\n    double *rates = createStatesArray();\n    gStates = states; gRates = rates;\n"
@@ -247,18 +247,21 @@ GenRun runGeneratedC(const std::string &header, const std::string &impl, const E
         m << "    for (size_t i = 0; i < STATE_COUNT; ++i) { printf(\"VAL S %zu %.17g\\n\", i, states[i]); printf(\"VAL R %zu %.17g\\n\", i, rates[i]); }\n";
     }
     m << "    for (size_t i = 0; i < VARIABLE_COUNT; ++i) printf(\"VAL V %zu %.17g\\n\", i, variables[i]);\n";
-    if (plan && ext) { // second step: the callback now returns its second value set; everything that depends on it must follow
+    if (ode || (plan && ext)) {
+        // second step, as after an integrator step: the states have moved on (+5), the callback returns its second value
+        // set; computeVariables alone must bring every variable up to date; computeRates then gives the new rates
         m << "    gStep = 1;\n";
-        if (pRates != "<absent>") {
-            m << "    gPhase = 4;\n    computeRates(" << callArgs(pRates) << ");\n";
+        if (ode) {
+            m << "    for (size_t i = 0; i < STATE_COUNT; ++i) states[i] += 5.0;\n";
         }
         if (pVars != "<absent>") {
-            m << "    gPhase = 5;\n    computeVariables(" << callArgs(pVars) << ");\n";
-        }
-        if (ode) {
-            m << "    for (size_t i = 0; i < STATE_COUNT; ++i) { printf(\"VAL2 S %zu %.17g\\n\", i, states[i]); printf(\"VAL2 R %zu %.17g\\n\", i, rates[i]); }\n";
+            m << "    gPhase = 4;\n    computeVariables(" << callArgs(pVars) << ");\n";
         }
         m << "    for (size_t i = 0; i < VARIABLE_COUNT; ++i) printf(\"VAL2 V %zu %.17g\\n\", i, variables[i]);\n";
+        if (ode && pRates != "<absent>") {
+            m << "    gPhase = 5;\n    computeRates(" << callArgs(pRates) << ");\n";
+            m << "    for (size_t i = 0; i < STATE_COUNT; ++i) { printf(\"VAL2 S %zu %.17g\\n\", i, states[i]); printf(\"VAL2 R %zu %.17g\\n\", i, rates[i]); }\n";
+        }
     }
     m << "    deleteArray(variables);\n";
     if (ode) {
@@ -363,6 +366,7 @@ import model
 from plan import PLAN, HAS_PLAN
 phase = 0
 step = 0
+voi = 0.0
 def fmt(x):
     return "nan" if isinstance(x, float) and math.isnan(x) else "%.17g" % x
 def info(kind, i, v):
@@ -401,7 +405,7 @@ def call(name, ph):
         used_ext = True
     args = []
     for p in inspect.signature(f).parameters:
-        args.append({"voi": 0.0, "states": states, "rates": rates, "variables": variables, "external_variable": ext}[p])
+        args.append({"voi": voi, "states": states, "rates": rates, "variables": variables, "external_variable": ext}[p])
     f(*args)
 for ph, fn in enumerate(("initialise_variables", "compute_computed_constants", "compute_rates", "compute_variables")):
     call(fn, ph)
@@ -411,16 +415,19 @@ if ode:
         print("VAL R %d %s" % (i, fmt(rates[i])))
 for i in range(model.VARIABLE_COUNT):
     print("VAL V %d %s" % (i, fmt(variables[i])))
-if HAS_PLAN and used_ext:
+if ode or (HAS_PLAN and used_ext):
     step = 1
-    call("compute_rates", 4)
-    call("compute_variables", 5)
     if ode:
+        for i in range(model.STATE_COUNT):
+            states[i] += 5.0
+    call("compute_variables", 4)
+    for i in range(model.VARIABLE_COUNT):
+        print("VAL2 V %d %s" % (i, fmt(variables[i])))
+    if ode:
+        call("compute_rates", 5)
         for i in range(model.STATE_COUNT):
             print("VAL2 S %d %s" % (i, fmt(states[i])))
             print("VAL2 R %d %s" % (i, fmt(rates[i])))
-    for i in range(model.VARIABLE_COUNT):
-        print("VAL2 V %d %s" % (i, fmt(variables[i])))
 print("DONE")
 )PY";
     int rc = sh("cd " + dir + " && timeout 30 python3 main.py > out.txt 2> err.txt");
